@@ -294,3 +294,159 @@ fn c13_error_range_arithmetic() {
     assert!(r3.start == a && r3.end == b);
     kani::cover!(i + 1 == len, "reached_last_byte");
 }
+
+// ---- string / number / symbol matchers ---------------------------------------------------------
+
+// @verif prop=C12,C13,C01 tier=quick timeout=900 mem=6000 cost=120 clause="string literal matcher: taken only at an opening quote; content is exactly the bytes up to the next quote (blanks and case kept); range ends just after the closing quote; no closing quote -> UNTERMINATED STRING at the opening quote"
+// @verif sample="any 6 ASCII bytes, cursor on any non-blank byte" bounds="6 bytes"
+#[kani::proof]
+#[kani::unwind(9)]
+fn c13_chomp_string() {
+    let (buf, len) = any_ascii();
+    let start: usize = kani::any();
+    kani::assume(start < len && !is_blank(buf[start]));
+    let mut sm = StringManager::default();
+    let mut t = Tokenizer::new(as_str(&buf, len), &mut sm);
+    t.index = start;
+    let got = t.chomp_string();
+    // reference: position of the next quote after the opening one
+    let mut close: Option<usize> = None;
+    let mut k = start + 1;
+    while k < len {
+        if buf[k] == b'"' && close.is_none() {
+            close = Some(k);
+        }
+        k += 1;
+    }
+    if buf[start] != b'"' {
+        assert!(got.is_none() && t.index == start, "c13 string: only an opening quote starts a string literal");
+    } else {
+        match (&got, close) {
+            (Some(Ok(Token::StringLiteral(s))), Some(c)) => {
+                assert!(t.index == c + 1, "c13 string: the range ends just after the closing quote");
+                assert!(s.as_bytes().len() == c - start - 1, "c12 string: the literal keeps every byte between the quotes");
+                let mut j = 0;
+                while j < c - start - 1 {
+                    assert!(s.as_bytes()[j] == buf[start + 1 + j], "c12 string: blanks and letter case inside a string literal are kept");
+                    j += 1;
+                }
+                kani::cover!(c - start > 2, "reached_non_empty_literal");
+            }
+            (Some(Err(TokenizationError::UnterminatedStringLiteral(p))), None) => {
+                assert!(*p == start, "c13 string: an unterminated string is reported at its opening quote");
+                assert!(t.index == start);
+                kani::cover!(true, "reached_unterminated");
+            }
+            _ => panic!("c13 string: wrong verdict"),
+        }
+    }
+    core::mem::forget(got);
+    core::mem::forget(t);
+    core::mem::forget(sm);
+}
+
+/// exact decimal model shared with the DATA harnesses (digits with at most one dot)
+fn model_parse(digits: &[u8; N], n: usize) -> Option<f64> {
+    let mut m: u64 = 0;
+    let mut k: u32 = 0;
+    let mut seen_dot = false;
+    let mut nd = 0;
+    let mut i = 0;
+    while i < n {
+        if digits[i] == b'.' {
+            if seen_dot {
+                return None;
+            }
+            seen_dot = true;
+        } else {
+            m = m * 10 + (digits[i] - b'0') as u64;
+            nd += 1;
+            if seen_dot {
+                k += 1;
+            }
+        }
+        i += 1;
+    }
+    if nd == 0 {
+        return None;
+    }
+    let mut d = 1.0f64;
+    let mut j = 0;
+    while j < k {
+        d *= 10.0;
+        j += 1;
+    }
+    Some(m as f64 / d)
+}
+
+fn stub_parse_f64_tok(s: &str) -> Result<f64, std::num::ParseFloatError> {
+    let b = s.as_bytes();
+    let mut a = [b'0'; N];
+    let mut ok = b.len() > 0 && b.len() <= N;
+    let mut i = 0;
+    while i < b.len() && i < N {
+        if (b[i] >= b'0' && b[i] <= b'9') || b[i] == b'.' {
+            a[i] = b[i];
+        } else {
+            ok = false;
+        }
+        i += 1;
+    }
+    match if ok { model_parse(&a, b.len()) } else { None } {
+        Some(v) => Ok(v),
+        None => Err(unsafe { std::mem::transmute::<u8, std::num::ParseFloatError>(1) }),
+    }
+}
+
+// @verif prop=C12,C13 tier=quick timeout=900 mem=6000 cost=150 clause="numeral matcher: the numeral is the maximal run of digits and dots among the non-blank bytes (blanks inside are insignificant); its value is the decimal value; the range ends just after its last digit; a malformed run (two dots, lone dot) is INVALID NUMBER over that range"
+// @verif sample="any 6 ASCII bytes from any start (e.g. `1 2.5X`, `..`, ` 7`)" bounds="6 bytes; f64 parsing by the exact decimal model (<= 6 digits)"
+#[kani::proof]
+#[kani::unwind(9)]
+#[kani::stub(<f64 as std::str::FromStr>::from_str, stub_parse_f64_tok)]
+fn c12_chomp_number() {
+    let (buf, len) = any_ascii();
+    let start: usize = kani::any();
+    kani::assume(start <= len);
+    let mut sm = StringManager::default();
+    let mut t = Tokenizer::new(as_str(&buf, len), &mut sm);
+    t.index = start;
+    let got = t.chomp_number();
+    // reference: crunched maximal prefix of [0-9.]
+    let mut digits = [b'0'; N];
+    let mut n = 0;
+    let mut end = start;
+    let mut k = start;
+    let mut stopped = false;
+    while k < len {
+        let b = buf[k];
+        if !stopped && !is_blank(b) {
+            if (b >= b'0' && b <= b'9') || b == b'.' {
+                digits[n] = b;
+                n += 1;
+                end = k + 1;
+            } else {
+                stopped = true;
+            }
+        }
+        k += 1;
+    }
+    if n == 0 {
+        assert!(got.is_none() && t.index == start, "c12 number: no digits, no numeral");
+    } else {
+        match (&got, model_parse(&digits, n)) {
+            (Some(Ok(Token::NumericLiteral(v))), Some(x)) => {
+                assert!(v.to_bits() == x.to_bits(), "c12 number: the value is the decimal value of the non-blank digits");
+                assert!(t.index == end, "c13 number: the range ends just after the last digit");
+                kani::cover!(end - start > n, "reached_numeral_with_blanks_inside");
+            }
+            (Some(Err(TokenizationError::InvalidNumber(r))), None) => {
+                assert!(r.start == start && r.end == end, "c13 number: INVALID NUMBER covers exactly the malformed run");
+                kani::cover!(true, "reached_invalid_number");
+            }
+            _ => panic!("c12 number: wrong verdict"),
+        }
+    }
+    core::mem::forget(got);
+    core::mem::forget(t);
+    core::mem::forget(sm);
+}
